@@ -13,6 +13,10 @@ pub fn engine_by_key(key: &str) -> Option<Box<dyn DynEngine>> {
         "hist:contract" => Box::new(Hist { verdict: Verdict::Contract }),
         "hist:mirror" => Box::new(Hist { verdict: Verdict::Mirror }),
         "hist:symmetry" => Box::new(Hist { verdict: Verdict::Symmetry }),
+        "inject" => Box::new(crate::engines::inject::Inject),
+        "scc" => Box::new(crate::engines::scc::Scc),
+        "roundtrip" => Box::new(crate::engines::serde_eng::RoundTrip),
+        "untrusted" => Box::new(crate::engines::serde_eng::Untrusted),
         "conc" => Box::new(Conc { only_invariant: None }),
         "conc:mirror" => Box::new(Conc { only_invariant: Some(true) }),
         "conc:symmetry" => Box::new(Conc { only_invariant: Some(false) }),
@@ -234,6 +238,72 @@ pub fn check(prop: &str, tier: Tier, seed: u64) -> i32 {
                         "all nodes stay alive for the whole run".into(),
                         "std::sync::RwLock behaviour is over-approximated by {writer preference on, off} x any wake order".into(),
                     ],
+                },
+                vec![p],
+                started,
+            )
+        }
+        "C20" => {
+            let p = run_part(prop, "inject", seed, budget(tier, 300_000, 5_000_000), tier, cap, "host_script_plan");
+            finish(
+                prop,
+                tier,
+                seed,
+                CheckSpec {
+                    level: "exploration",
+                    rule: "seeded (graph, host loop, script, firing plan) tuples over the four flavours: hosts are iter_out/iter_in/`for e in &node`/iter and bfs/dfs/pfs-min/pfs-max x search/search_path/search_cycle and pre/postorder x search_nodes/search_edges with for_each or filter (transposed too); the script (edge operations on the cursor's endpoints and other nodes through every handle provenance, queries, nested iteration and searches, container calls) fires at simulator-chosen steps; oracle per step: no panic/self-deadlock, the yielded edge is live now with true endpoints and value, injected calls obey the reference model, bounded termination after the last injection, graph = model after the loop; a host that fails without any injection is not a verdict; distinct = distinct (flavour, graph, host, script, plan) tuples".into(),
+                    assumptions: vec![
+                        "one task: re-entrancy is the interleaving under test; in the sync flavours the lock seam turns a guard kept across a step into a reported self-deadlock".into(),
+                        "'yields' = handed to the loop body or closure; edges inside a returned path are not required to be still alive".into(),
+                    ],
+                },
+                vec![p],
+                started,
+            )
+        }
+        "C11" => {
+            let p = run_part(prop, "scc", seed, budget(tier, 150_000, 2_500_000), tier, cap, "graph_and_container_order");
+            finish(
+                prop,
+                tier,
+                seed,
+                CheckSpec {
+                    level: "exploration",
+                    rule: "seeded directed graphs (sparse/dense random, cycles sharing nodes with chords, DAG with back edges, chains of components; self-loops, parallel edges, isolated nodes; 1-30 nodes) in digraph and sync_digraph containers; per graph 2-4 container instances, each with its own simulated hash seed (iteration order) and insertion order; scc() must be a partition of the members equal, as a set of sets, to the mutual-reachability classes of a reachability closure; distinct = distinct (flavour, graph, observed container iteration order) triples".into(),
+                    assumptions: vec!["containers are closed under neighbours (the property's precondition)".into()],
+                },
+                vec![p],
+                started,
+            )
+        }
+        "C12" => {
+            let p = run_part(prop, "roundtrip", seed, budget(tier, 150_000, 2_500_000), tier, cap, "graph_wire_orders");
+            finish(
+                prop,
+                tier,
+                seed,
+                CheckSpec {
+                    level: "exploration",
+                    rule: "seeded graphs (1-40 nodes, self-loops, parallel edges in both orientations, distinct values) in each of the four containers, JSON and CBOR; simulated hash seeds on the serialising and on the deserialising side (container iteration order), seeded insertion order; three configurations kept apart: in memory, through simulated streams with benign behaviour only (short writes/reads, EINTR), through streams with one hard fault (I/O error or write-zero/EOF at byte k); oracle: same keys, node values, per-node ordered out-list (directed) or incident multiset (undirected), copy satisfies the mirror/symmetry invariant; under a hard fault Err or an equal graph, never a panic; distinct = distinct (flavour, wire, graph, serialising order, deserialising order) tuples".into(),
+                    assumptions: vec!["containers are closed under neighbours".into(), "a benign stream behaviour the wire library itself cannot cope with (checked on plain tuples) is not a gdsl verdict".into()],
+                },
+                vec![p],
+                started,
+            )
+        }
+        "C13" => {
+            let p = run_part(prop, "untrusted", seed, budget(tier, 12_000, 200_000), tier, cap, "mutated_documents");
+            let docs = p.stats.get("documents");
+            let mut p = p;
+            p.runs = docs.max(p.runs);
+            finish(
+                prop,
+                tier,
+                seed,
+                CheckSpec {
+                    level: "fault_enumeration",
+                    rule: "per seeded base document (valid document of a small graph, four container types, JSON and CBOR): every truncation offset, every structural mutation of the document tree (drop/duplicate/redeclare/retype/shorten a node or edge element, retarget an edge end to a declared or an undeclared key, drop the edge list, drop both, extra element, list replaced by scalar, top-level map) and seeded byte damage (bit flip, byte drop, duplicate, overwrite); a third of the base documents are delivered through a faulty reader (short reads, EINTR, I/O error at k); oracle = the property's disjunction: no panic/hang; Ok(g) => g satisfies mirror/symmetry, lists only members, every node and edge of g is declared by the document (independent strict parse into plain tuples) with at most the listed multiplicity; any listed edge naming an undeclared key => Err; evaluations = mutated documents deserialised; distinct = distinct (flavour, document bytes)".into(),
+                    assumptions: vec!["a panic of serde_json/serde_cbor that also occurs when the same bytes are decoded into plain tuples is a dependency defect (counted, not a verdict)".into()],
                 },
                 vec![p],
                 started,
